@@ -310,7 +310,97 @@ func gen(t *rapid.T) Case {
 	// ---- third hosts
 	regs := g.registries(false)
 	pickReg := func(label string) int { return rapid.SampledFrom(regs).Draw(t, label) }
-	switch pick(t, "redirect", "none", 5, "storage", 6, "self", 1, "registry", 1) {
+	switch pick(t, "redirect", "none", 5, "storage", 4, "self", 1, "registry", 1, "chain", 6) {
+	case "chain":
+		// a redirect chain of 1-4 hops over hosts drawn WITH repetition from: own-site sub-domain, same name
+		// other port, third hosts, the registry itself, another configured registry
+		r := pickReg("chain.reg")
+		bare := c.Hosts[r].Name
+		if k := strings.LastIndexByte(bare, ':'); k > 0 {
+			bare = bare[:k]
+		}
+		bare = strings.TrimSuffix(bare, ".")
+		ownSiteOK := !c.isHub(r)
+		var elems []int // candidate hop hosts
+		addStorage := func(label string) {
+			forms := []any{"other-domain", 3}
+			if ownSiteOK {
+				forms = append(forms, "other-port", 2)
+				if bare != "localhost" && !strings.HasPrefix(bare, "127.") && !strings.HasPrefix(bare, "REGISTRY") {
+					forms = append(forms, "subdomain", 4)
+				}
+			}
+			name := ""
+			switch pick(t, label+".form", forms...) {
+			case "subdomain":
+				name = "blobs." + bare
+			case "other-port":
+				name = bare + ":8443"
+			default:
+				name = "blobs.cdn.example.net"
+			}
+			for _, h := range c.Hosts {
+				if h.Name == name {
+					name = "edge." + name // second storage host of the same form
+					if strings.HasSuffix(name, ":8443") {
+						name = bare + ":9443"
+					}
+				}
+			}
+			for _, h := range c.Hosts {
+				if h.Name == name {
+					return
+				}
+			}
+			h := newHost("storage", name)
+			h.Origin = r
+			h.Scheme = pick(t, label+".scheme", "", 6, "http", 1)
+			c.Hosts = append(c.Hosts, h)
+			elems = append(elems, len(c.Hosts)-1)
+		}
+		addStorage("chain.s1")
+		if chance(t, "chain.s2", 40) {
+			addStorage("chain.s2")
+		}
+		s1 := elems[0]
+		s2 := elems[len(elems)-1]
+		all := append([]int{}, elems...)
+		all = append(all, r)
+		for _, o := range regs {
+			if o != r && c.Hosts[o].MirrorOf != r && c.Hosts[r].MirrorOf != o {
+				all = append(all, o)
+				break
+			}
+		}
+		var chain []int
+		switch pick(t, "chain.pattern", "random", 5, "S", 1, "SS", 3, "SSS", 1, "SAS", 2, "S1S2", 1, "S1S2S2", 1, "ASS", 1) {
+		case "S":
+			chain = []int{s1}
+		case "SS":
+			chain = []int{s1, s1}
+		case "SSS":
+			chain = []int{s1, s1, s1}
+		case "SAS":
+			chain = []int{s1, r, s1}
+		case "S1S2":
+			chain = []int{s1, s2}
+		case "S1S2S2":
+			chain = []int{s1, s2, s2}
+		case "ASS":
+			chain = []int{r, s1, s1}
+		default:
+			n := between(t, "chain.n", 1, 4)
+			for k := 0; k < n; k++ {
+				if k > 0 && chance(t, fmt.Sprintf("chain.rep%d", k), 40) {
+					chain = append(chain, chain[k-1])
+				} else {
+					chain = append(chain, rapid.SampledFrom(all).Draw(t, fmt.Sprintf("chain.hop%d", k)))
+				}
+			}
+		}
+		c.Hosts[r].Chain = chain
+		c.Hosts[r].ChainHead = chance(t, "chain.head", 50)
+		c.Hosts[r].RedirectStatus = rapid.SampledFrom([]int{307, 302, 301, 303, 308}).Draw(t, "chain.status")
 	case "storage":
 		r := pickReg("redirect.reg")
 		h := newHost("storage", "blobs.cdn.example.net")
@@ -524,6 +614,9 @@ func gen(t *rapid.T) Case {
 			continue
 		}
 		l := fmt.Sprintf("aim%d", i)
+		if len(h.Chain) > 0 && chance(t, l+".chain", 80) {
+			c.Ops = append(c.Ops, Op{Kind: pick(t, l+".chain.kind", "bget", 3, "bhead", 2), Reg: i, Repo: between(t, l+".chain.repo", 0, 1), Tag: "v1", Blob: between(t, l+".chain.blob", 0, 2)})
+		}
 		if h.RedirectTo >= 0 && chance(t, l+".redirect", 60) {
 			c.Ops = append(c.Ops, Op{Kind: "bget", Reg: i, Repo: between(t, l+".redirect.repo", 0, 1), Tag: "v1", Blob: between(t, l+".redirect.blob", 0, 2)})
 		}
